@@ -147,7 +147,9 @@ static void fs_qstack(bool cyclic, const std::string &kind) {
 			if (n == 2) { std::unique_ptr<Instance> I(qstack_instance(W, cyclic, st0, 2)); RunResult R = run(*I, ctx.seed, nextsb()); count("control_runs"); count("control/" + proto); if (!R.ok) control_failed(proto, R, "n=2"); }
 			for (size_t pos : positions(n, rg, quick ? 3 : 5)) {
 				std::vector<std::string> strategies = {"both", "vonly"}; if (kind == "drop") strategies = {"vonly"}; if (kind == "maskflip") strategies = {"fitting-witness"};
-				for (auto &strat : strategies) for (size_t aux = 0; aux < (quick ? 1u : 2u); aux++) {
+				// maskflip: aux = flip pattern (0 one bit, 1 two type bits of one player [even Hamming distance], 2 one bit at each of two players
+				// at different type bits, 3.. random non-empty bit sets); patterns whose flips cancel leave a true statement and are skipped below
+				for (auto &strat : strategies) for (size_t aux = 0; aux < (kind == "maskflip" ? (quick ? 3u : 8u) : (quick ? 1u : 2u)); aux++) {
 					size_t a = quick ? (pos * 3 + n + (strat == "both")) : aux * 3 + pos;
 					auto st = std::make_shared<QStmt>(*st0);
 					Rng ar(ctx.seed, (uint64_t)k * 977 + pos * 31 + a, 11); Rng *old = tl_rng; tl_rng = &ar;
@@ -155,9 +157,17 @@ static void fs_qstack(bool cyclic, const std::string &kind) {
 					if (kind == "maskflip") {
 						// the witness itself is altered: one mask bit of the card secret applied to input card `pos` flipped, output stack
 						// recomputed from it: a consistent "shuffle" by a mask that changes the type of one card
-						size_t kk = a % 2, ww = (a / 2) % W.qr_w; mpz_ptr b = &st->ss[pos].second.b[kk][ww]; mpz_set_ui(b, (mpz_get_ui(b) & 1UL) ^ 1UL);
+						size_t kk = a % 2, ww = (a / 2) % W.qr_w;
+						std::vector<std::pair<size_t, size_t>> flips;
+						if (aux == 0) flips = {{kk, ww}};
+						else if (aux == 1) flips = {{kk, ww}, {kk, (ww + 1) % W.qr_w}};
+						else if (aux == 2) flips = {{0, ww}, {1, (ww + 1 + ar.below(W.qr_w - 1)) % W.qr_w}};
+						else { for (size_t k2 = 0; k2 < 2; k2++) for (size_t w2 = 0; w2 < W.qr_w; w2++) if (ar.coin()) flips.push_back({k2, w2}); if (flips.empty()) flips = {{kk, ww}}; }
+						std::string fl;
+						for (auto &f : flips) { mpz_ptr b = &st->ss[pos].second.b[f.first][f.second]; mpz_set_ui(b, (mpz_get_ui(b) & 1UL) ^ 1UL); fl += " b[" + std::to_string(f.first) + "][" + std::to_string(f.second) + "]"; }
+						count("maskflip_bits/" + std::to_string(flips.size()));
 						tm.TMCG_MixStack(st->s, st->s2P, st->ss, *W.ring); st->same_view();
-						detail = "witness: mask bit b[" + std::to_string(kk) + "][" + std::to_string(ww) + "] of the card secret for input card " + std::to_string(pos) + " flipped (type-changing mask), s2 = MixStack(s, witness)"; P = P_ALL1;   // a verifier that checks the revealed secrets can be passed with fresh (type-preserving) re-mix secrets only, i.e. for 1^k
+						detail = "witness: mask bit(s)" + fl + " of the card secret for input card " + std::to_string(pos) + " flipped (type-changing mask), s2 = MixStack(s, witness)"; P = P_ALL1;   // a verifier that checks the revealed secrets can be passed with fresh (type-preserving) re-mix secrets only, i.e. for 1^k
 					} else {
 						detail = alter_qstack(W, tm, *st, st->s2V, kind, pos, a, ar);
 						if (strat == "both") st->s2P = st->s2V;
